@@ -759,3 +759,106 @@ Example round_dec_examples :
   round_dec false 49406564584124654 (-340) = 1%N (* 4.94e-324: the smallest subnormal *) /\
   round_dec false 2 (-324) = 0%N (* below half of it: 0.0 *).
 Proof. vm_compute. repeat split. Qed.
+
+(* ---------- the model's reading of a bit pattern (Num.f_ext, on which the order of numbers is defined) is Flocq's ---------- *)
+Lemma b64_of_bits_aux x :
+  exists pf, b64_of_bits x = FF2B 53 1024 (binary_float_of_bits_aux 52 11 x) pf.
+Proof. unfold b64_of_bits, binary_float_of_bits. eexists. reflexivity. Qed.
+
+Lemma f_ext_aux (b : N) :
+  let ff := binary_float_of_bits_aux 52 11 (Z.of_N b) in
+  sign_FF ff = f_sign b /\
+  match f_ext b with
+  | ENaN => is_nan_FF ff = true
+  | EPosInf => ff = F754_infinity false
+  | ENegInf => ff = F754_infinity true
+  | EFin z => is_finite_FF ff = true /\ FF2R radix2 ff = (IZR z * bpow radix2 (-1074))%R
+  end.
+Proof.
+  cbv zeta.
+  unfold f_ext, f_is_nan, f_is_inf, f_scaled, f_sign.
+  unfold binary_float_of_bits_aux, split_bits.
+  change (2 ^ 52 * 2 ^ 11) with 9223372036854775808. change (2 ^ 11 - 1) with 2047.
+  change (2 ^ 11) with 2048. change (2 ^ 52) with P52.
+  change (SpecFloat.emin (52 + 1) (2 ^ (11 - 1))) with (-1074).
+  assert (He : Z.of_N (f_exp b) = (Z.of_N b / P52) mod 2048).
+  { unfold f_exp. rewrite N2Z.inj_mod, N2Z.inj_div. reflexivity. }
+  assert (Hm : Z.of_N (f_man b) = Z.of_N b mod P52).
+  { unfold f_man. rewrite N2Z.inj_mod. reflexivity. }
+  assert (Hs : (9223372036854775808 <=? b)%N = (9223372036854775808 <=? Z.of_N b)) by lia.
+  rewrite <- He, <- Hm, Hs.
+  assert (Hmr : 0 <= Z.of_N (f_man b) < P52) by (rewrite Hm; apply Z.mod_pos_bound; reflexivity).
+  assert (Her : 0 <= Z.of_N (f_exp b) < 2048) by (rewrite He; apply Z.mod_pos_bound; reflexivity).
+  set (eN := f_exp b) in *. set (mN := f_man b) in *. set (sx := 9223372036854775808 <=? Z.of_N b) in *.
+  clearbody eN mN sx. clear He Hm Hs.
+  assert (HP : P52 = 4503599627370496) by reflexivity.
+  destruct (N.eqb_spec eN 0) as [E0|E0].
+  - (* zero and subnormal *)
+    subst eN. change (Zeq_bool (Z.of_N 0) 0) with true. cbn [N.eqb andb].
+    destruct (Z.of_N mN) as [|px|px] eqn:Em; [| |lia].
+    + split; [reflexivity|split; [reflexivity|]]. cbn [FF2R]. destruct sx; cbn; ring.
+    + split; [reflexivity|split; [reflexivity|]]. cbn [FF2R]. unfold F2R; cbn [Fnum Fexp].
+      destruct sx; cbn [cond_Zopp]; reflexivity.
+  - replace (Zeq_bool (Z.of_N eN) 0) with false by (symmetry; apply Zeq_bool_false; lia).
+    destruct (N.eqb_spec eN 2047) as [E1|E1].
+    + subst eN. change (Zeq_bool (Z.of_N 2047) 2047) with true. cbn [andb].
+      destruct (N.eqb_spec mN 0) as [M0|M0]; cbn [negb].
+      * subst mN. cbn [Z.of_N] in *. cbn [sign_FF]. destruct sx; split; reflexivity.
+      * destruct (Z.of_N mN) as [|px|px] eqn:Em; [lia| |lia]. split; reflexivity.
+    + replace (Zeq_bool (Z.of_N eN) 2047) with false by (symmetry; apply Zeq_bool_false; lia).
+      cbn [andb]. replace (eN =? 0)%N with false by lia.
+      destruct (Z.of_N mN + P52) as [|px|px] eqn:Em; [lia| |lia].
+      split; [reflexivity|split; [reflexivity|]]. cbn [FF2R]. unfold F2R; cbn [Fnum Fexp].
+      assert (Hv : IZR (Z.of_N (two52 + mN) * 2 ^ (Z.of_N eN - 1)) = (IZR (Z.pos px) * bpow radix2 (Z.of_N eN - 1))%R).
+      { rewrite mult_IZR, IZR_pow2 by lia. rewrite <- Em. f_equal. f_equal. unfold two52. lia. }
+      replace (Z.of_N eN + -1074 - 1) with ((Z.of_N eN - 1) + -1074) by lia. rewrite bpow_plus.
+      destruct sx; cbn [cond_Zopp]; rewrite ?opp_IZR, Hv; ring.
+Qed.
+
+Theorem f_ext_is_flocq (b : N) :
+  let f := b64_of_bits (Z.of_N b) in
+  Bsign 53 1024 f = f_sign b /\
+  match f_ext b with
+  | ENaN => is_nan 53 1024 f = true
+  | EPosInf => f = B754_infinity 53 1024 false
+  | ENegInf => f = B754_infinity 53 1024 true
+  | EFin z => is_finite 53 1024 f = true /\ B2R 53 1024 f = (IZR z * bpow radix2 (-1074))%R
+  end.
+Proof.
+  intros f. destruct (b64_of_bits_aux (Z.of_N b)) as [pf Hf]. unfold f. rewrite Hf. clear f Hf.
+  pose proof (f_ext_aux b) as [H1 H2]. cbv zeta in H1, H2.
+  assert (Hinf : forall s, binary_float_of_bits_aux 52 11 (Z.of_N b) = F754_infinity s ->
+                 FF2B 53 1024 (binary_float_of_bits_aux 52 11 (Z.of_N b)) pf = B754_infinity 53 1024 s).
+  { intros s H. rewrite <- (B2FF_FF2B 53 1024 _ pf) in H.
+    destruct (FF2B _ _ _ _); try discriminate H. cbn in H. congruence. }
+  rewrite Bsign_FF2B, is_nan_FF2B, is_finite_FF2B, B2R_FF2B.
+  split; [exact H1|]. destruct (f_ext b); auto.
+Qed.
+
+(* the real number a model number denotes: an integer, or Flocq's B2R of the Float64 pattern *)
+Definition num_R (x : num) : R :=
+  match x with
+  | NInt z => IZR z
+  | NUInt n => IZR (Z.of_N n)
+  | NFloat b => B2R 53 1024 (b64_of_bits (Z.of_N b))
+  end.
+
+(* the line on which Num.num_cmp compares (Num.scaled: value * 2^1074) carries that real number *)
+Theorem scaled_is_real_value x v : scaled x = EFin v -> num_R x = (IZR v * bpow radix2 (-1074))%R.
+Proof.
+  assert (H2 : (IZR two1074 * bpow radix2 (-1074) = 1)%R).
+  { change (IZR two1074) with (bpow radix2 1074). rewrite <- bpow_plus. reflexivity. }
+  destruct x as [z|n|b]; cbn [scaled num_R]; intros H.
+  - injection H as <-. rewrite mult_IZR, Rmult_assoc, H2. ring.
+  - injection H as <-. rewrite mult_IZR, Rmult_assoc, H2. ring.
+  - pose proof (f_ext_is_flocq b) as [_ Hb]. cbv zeta in Hb. rewrite H in Hb. apply Hb.
+Qed.
+
+(* hence the order of numbers (C18) is the order of the real numbers they denote, whenever both are finite *)
+Theorem num_cmp_is_real_order a b va vb :
+  scaled a = EFin va -> scaled b = EFin vb -> num_cmp a b = Rcompare (num_R a) (num_R b).
+Proof.
+  intros Ha Hb. rewrite (scaled_is_real_value a va Ha), (scaled_is_real_value b vb Hb).
+  rewrite Rcompare_mult_r by apply bpow_gt_0. rewrite Rcompare_IZR.
+  unfold num_cmp. rewrite Ha, Hb. reflexivity.
+Qed.
